@@ -122,9 +122,10 @@ public:
 
     void rollback(std::size_t iteration) override
     {
-        // the first weights are only serialized while there are no results; if the checkpoint was
-        // read from a stream get them back from the first result
-        if ((iteration == 0) && first_channel_weights_.empty() && !this->results().empty())
+        // the first weights are only serialized while there are no results; a checkpoint that was
+        // read from a stream does not have them (or has the default weights set by `channels`), so
+        // always get them back from the first result
+        if ((iteration == 0) && !this->results().empty())
         {
             first_channel_weights_ = this->results().front().channel_weights();
         }
